@@ -32,6 +32,14 @@ Definition cast (t : ty) (c : comp) : comp :=
   | _, c => c
   end.
 
+(* assignment into a numpy array of the attribute's dtype: numeric conversion, strings cut to the fixed width *)
+Definition trunc (l : list Z) : list Z := firstn (Z.to_nat string_width) l.
+Definition store (t : ty) (c : comp) : comp :=
+  match t, cast t c with
+  | TString, CS l => CS (trunc l)
+  | _, c' => c'
+  end.
+
 Definition trank (t : ty) : Z :=
   match t with TBool => 0 | TInt => 1 | TFloat => 2 | TComplex => 3 | TString => 4 end.
 Definition kmax (a b : ty) : ty := if trank a <? trank b then b else a.
@@ -86,7 +94,11 @@ Inductive storage :=
 Record attr := mkattr { aty : ty; asz : Z; adef : dflt; ast : storage }.
 
 (* a reference handed out by a read of a vector entry *)
-Inductive ref := RObj (id : nat) | RRow (a : Z) (stamp : Z) (k : Z).
+Inductive ref :=
+| RObj (id : nat)                      (* a 1-d array object in the heap *)
+| RRow (a : Z) (stamp : Z) (k : Z)     (* view of row k of the array `stamp` of dense attribute a *)
+| RArr (a : Z) (stamp : Z)             (* the whole array `stamp` of dense attribute a (dense as_array returns a view) *)
+| RNone.                               (* a detached array nobody else holds (sparse as_array) *)
 
 Record state := mkst {
   corner : bool;                (* CornerDataContainer rather than DataContainer *)
@@ -99,7 +111,8 @@ Record state := mkst {
 
 Definition init (c : bool) : state := mkst c 0 [] [] [] 0.
 
-Inductive err := EOob | ESize | EType | EEnum | ENotIter | ENoAttr | EDflt | EBadAppend | EIndex | ENoRef.
+Inductive err := EOob | ESize | EType | EEnum | ENotIter | ENoAttr | EDflt | EBadAppend | EIndex | ENoRef
+                 | EUnpack | ENotSub | EBadRef | EAmbiguous | EShape.
 
 Inductive obs :=
 | OOk | OErr (e : err)
@@ -120,13 +133,19 @@ Inductive op :=
 | Mut (r : nat) (c : Z) (x : comp)          (* refs[r][c] = x *)
 | Append | ExtendList (m : Z) | ExtendOther (m : Z) | ExtendSelf | ExtendBad
 | ClearAttr (a : Z) | AsArray (a : Z) | Len (a : Z) | Iter (a : Z)
-| ClearAll | CLen | Snap.
+| ClearAll | CLen | Snap
+| Update (a : Z) (key : Z) (c : Z) (x : comp)        (* attr[key][c] = x *)
+| MutArr (r : nat) (row c : Z) (x : comp)            (* refs[r][row, c] = x  on an array handed out by as_array *)
+| Contains (a : Z) (k : Z)                           (* k in attr *)
+| ExtendListBad (m : Z)                              (* += [m well-formed items, then one a corner container cannot unpack] *)
+| CreateSized (a : Z) (t : ty) (k : Z) (d : option comp) (size : Z)     (* create_attribute(dense=True, size=size) *)
+| Register (a : Z) (t : ty) (k : Z) (rows : list (list comp)) (d : option comp).  (* register_array_as_attribute *)
 
 (* ------------------------------------------------------------------ defaults *)
 Definition default_row (h : heap) (a : attr) : list comp :=
   match adef a with
-  | DScal c => repeat (cast (aty a) c) (Z.to_nat (asz a))
-  | DCell id => match nth_error h id with Some c => map (cast (aty a)) (cv c) | None => [] end
+  | DScal c => repeat (store (aty a) c) (Z.to_nat (asz a))
+  | DCell id => match nth_error h id with Some c => map (store (aty a)) (cv c) | None => [] end
   end.
 
 (* ------------------------------------------------------------------ validation of a value (both __setitem__) *)
@@ -134,7 +153,7 @@ Definition seq_of (v : value) : option (list comp) :=
   match v with
   | VScal _ => None                     (* list(scalar): TypeError, not iterable *)
   | VSeq l => Some l
-  | VStr _ chars => Some (map CS chars)
+  | VStr s => Some (map (fun ch => CS [ch]) s)
   end.
 
 Fixpoint check_comps (cast_ok : ty -> ty -> bool) (ta : ty) (l : list comp) : option err :=
@@ -167,7 +186,7 @@ Definition validate (is_vec : Z -> bool) (size_bad : Z -> Z -> bool) (all : bool
         | None => inl EEnum
         | Some tv => if scast tv ta then inr (false, [c]) else inl EType
         end
-    | VStr s _ => if scast TString ta then inr (false, [CS s]) else inl EType
+    | VStr s => if scast TString ta then inr (false, [CS s]) else inl EType
     end.
 
 Definition sparse_validate := validate sparse_is_vec sparse_size_bad sparse_checks_all_components
@@ -240,6 +259,10 @@ Definition mk_default (h : heap) (t : ty) (k : Z) (d : option comp) : err + (hea
       else inr (h ++ [mkcell t (repeat (type_default t) (Z.to_nat k))], DCell (length h))
   end.
 
+Definition new_storage_n (h : heap) (t : ty) (k : Z) (df : dflt) (ne0 clk : Z) : storage :=
+  Dense (dense_init_n_elem ne0) clk
+        (repeat (default_row h (mkattr t k df (Sparse []))) (Z.to_nat (dense_init_rows ne0))).
+
 Definition new_storage (h : heap) (t : ty) (k : Z) (df : dflt) (dense : bool) (n clk : Z) : storage :=
   if dense then
     let ne0 := create_dense_n_elem n in
@@ -270,9 +293,9 @@ Definition do_set (s : state) (a key : Z) (v : value) : state * obs :=
           | inl e => (s, OErr e)
           | inr (true, l) =>
               (* self._data[key] = Vec(data): a new array object *)
-              let kd := vec_kind l in
+              let kd := if sparse_vec_uses_attr_dtype then aty at_ else vec_kind l in
               let id := length (hp s) in
-              (with_attrs (with_heap s (hp s ++ [mkcell kd (map (cast kd) l)]))
+              (with_attrs (with_heap s (hp s ++ [mkcell kd (map (store kd) l)]))
                           (put a (set_storage at_ (Sparse (upsert key (SVec id) m))) (attrs s)), OOk)
           | inr (false, l) =>
               (with_attrs s (put a (set_storage at_ (Sparse (upsert key (SScal (hd CX l)) m))) (attrs s)), OOk)
@@ -283,8 +306,8 @@ Definition do_set (s : state) (a key : Z) (v : value) : state * obs :=
             match dense_validate (aty at_) (asz at_) v with
             | inl e => (s, OErr e)
             | inr (isv, l) =>
-                let row := if isv then map (cast (aty at_)) l
-                           else repeat (cast (aty at_) (hd CX l)) (Z.to_nat (asz at_)) in
+                let row := if isv then map (store (aty at_)) l
+                           else repeat (store (aty at_) (hd CX l)) (Z.to_nat (asz at_)) in
                 (with_attrs s (put a (set_storage at_ (Dense ne stamp (upd rows (Z.to_nat key) row))) (attrs s)), OOk)
             end
       end
@@ -328,7 +351,7 @@ Definition mut_ref (s : state) (r : ref) (c : Z) (x : comp) : state :=
   match r with
   | RObj id =>
       match nth_error (hp s) id with
-      | Some cl => with_heap s (upd (hp s) id (mkcell (ck cl) (upd (cv cl) (Z.to_nat c) (cast (ck cl) x))))
+      | Some cl => with_heap s (upd (hp s) id (mkcell (ck cl) (upd (cv cl) (Z.to_nat c) (store (ck cl) x))))
       | None => s
       end
   | RRow a stamp k =>
@@ -337,19 +360,31 @@ Definition mut_ref (s : state) (r : ref) (c : Z) (x : comp) : state :=
           match ast at_ with
           | Dense ne st rows =>
               if st =? stamp then
-                let row := upd (znth_row rows k) (Z.to_nat c) (cast (aty at_) x) in
+                let row := upd (znth_row rows k) (Z.to_nat c) (store (aty at_) x) in
                 with_attrs s (put a (set_storage at_ (Dense ne st (upd rows (Z.to_nat k) row))) (attrs s))
               else s                                    (* a view of an array the attribute no longer uses *)
           | Sparse _ => s
           end
       | None => s
       end
+  | RArr _ _ | RNone => s
   end.
 
 Definition do_mut (s : state) (r : nat) (c : Z) (x : comp) : state * obs :=
   match nth_error (refs s) r with
   | None => (s, OErr ENoRef)
+  | Some (RArr _ _) | Some RNone => (s, OErr EBadRef)
   | Some rf => let s' := mut_ref s rf c x in (s', OSnap (snapshot s'))
+  end.
+
+(* refs[r][row, c] = x on an exported array: a dense export is a view of the attribute's array *)
+Definition do_mut_arr (s : state) (r : nat) (row c : Z) (x : comp) : state * obs :=
+  match nth_error (refs s) r with
+  | None => (s, OErr ENoRef)
+  | Some (RArr a stamp) => if row <? 0 then (s, OErr EIndex)
+                           else let s' := mut_ref s (RRow a stamp row) c x in (s', OSnap (snapshot s'))
+  | Some RNone => (s, OSnap (snapshot s))
+  | Some _ => (s, OErr EBadRef)
   end.
 
 (* attr._expand(amount) *)
@@ -392,8 +427,8 @@ Fixpoint fill_rows (h : heap) (a : attr) (n : Z) (m : list (Z * sval)) (out : li
       if (j <? 0) || (j >=? n) then None
       else
         let row := match sv with
-                   | SScal c => repeat (cast (aty a) c) (Z.to_nat (asz a))
-                   | SVec id => match nth_error h id with Some c => map (cast (aty a)) (cv c) | None => [] end
+                   | SScal c => repeat (store (aty a) c) (Z.to_nat (asz a))
+                   | SVec id => match nth_error h id with Some c => map (store (aty a)) (cv c) | None => [] end
                    end in
         fill_rows h a n t (upd out (Z.to_nat j) row)
   end.
@@ -405,12 +440,70 @@ Definition do_as_array (s : state) (a : Z) : state * obs :=
       match ast at_ with
       | Sparse m =>
           match fill_rows (hp s) at_ (sn s) m (repeat (default_row (hp s) at_) (Z.to_nat (sn s))) with
-          | Some rows => (s, ORows rows)
+          | Some rows => (with_refs s (refs s ++ [RNone]), ORows rows)
           | None => (s, OErr EIndex)
           end
-      | Dense _ _ rows => (s, ORows rows)
+      | Dense _ stamp rows => (with_refs s (refs s ++ [RArr a stamp]), ORows rows)
       end
   end.
+
+(* attr[key][c] = x : the read, then the update of what the read handed out *)
+Definition do_update (s : state) (a key c : Z) (x : comp) : state * obs :=
+  match do_get s a key with
+  | (s1, OVal row true) =>
+      if (c <? 0) || (c >=? Z.of_nat (length row)) then (s1, OErr EIndex)
+      else match nth_error (refs s1) (length (refs s)) with
+           | Some rf => (mut_ref s1 rf c x, OOk)
+           | None => (s1, OOther)
+           end
+  | (s1, OVal _ false) => (s1, OErr ENotSub)            (* a scalar does not support item assignment *)
+  | (s1, OErr e) => (s1, OErr e)
+  | (s1, _) => (s1, OOther)
+  end.
+
+(* k in attr : no __contains__, python iterates - keys for the sparse storage, rows for the dense one *)
+Definition num_eq (k : Z) (c : comp) : bool :=
+  match c with
+  | CB b => b2z b =? k | CI z => z =? k | CF z => z =? 8 * k | CC re im => (re =? 8 * k) && (im =? 0)
+  | _ => false
+  end.
+
+Definition do_contains (s : state) (a k : Z) : state * obs :=
+  match lookup a (attrs s) with
+  | None => (s, OErr ENoAttr)
+  | Some at_ =>
+      match ast at_ with
+      | Sparse m => (s, OBool (match lookup k m with Some _ => true | None => false end))
+      | Dense _ _ rows =>
+          match rows with
+          | [] => (s, OBool false)
+          | _ => if asz at_ =? 1 then (s, OBool (existsb (fun r => num_eq k (hd CX r)) rows))
+                 else (s, OErr EAmbiguous)
+          end
+      end
+  end.
+
+Definition do_create_sized (s : state) (a : Z) (t : ty) (k : Z) (d : option comp) (size : Z) : state * obs :=
+  if (match lookup a (attrs s) with Some _ => create_keeps_existing | None => false end) then (s, OOk)
+  else
+    match mk_default (hp s) t k d with
+    | inl e => (s, OErr e)
+    | inr (h', df) =>
+        (with_attrs (with_heap s h')
+                    (put a (mkattr t k df (new_storage_n h' t k df (create_dense_n_elem_sized (sn s) size) (clock s))) (attrs s)), OOk)
+    end.
+
+(* register_array_as_attribute(name, data): the attribute adopts the caller's array (dtype and all) *)
+Definition do_register (s : state) (a : Z) (t : ty) (k : Z) (rows : list (list comp)) (d : option comp) : state * obs :=
+  if (match lookup a (attrs s) with Some _ => register_keeps_existing | None => false end) then (s, OOk)
+  else if negb (Z.of_nat (length rows) =? sn s) then (s, OErr EShape)
+  else if sn s =? 0 then (s, OErr EIndex)                   (* type(data[0,0].item()) on an empty array *)
+  else
+    match mk_default (hp s) t k d with
+    | inl e => (s, OErr e)
+    | inr (h', df) =>
+        (with_attrs (with_heap s h') (put a (mkattr t k df (Dense (sn s) (clock s) rows)) (attrs s)), OOk)
+    end.
 
 Definition step (s0 : state) (o : op) : state * obs :=
   let s := tick s0 in
@@ -441,6 +534,16 @@ Definition step (s0 : state) (o : op) : state * obs :=
   | ClearAll => (with_attrs (with_n s 0) [], OGrow 0 [])
   | CLen => (s, ONat (sn s))
   | Snap => (s, OSnap (snapshot s))
+  | Update a key c x => do_update s a key c x
+  | MutArr r row c x => do_mut_arr s r row c x
+  | Contains a k => do_contains s a k
+  | ExtendListBad m =>
+      if corner s then
+        if cdc_iadd_list_atomic then (s, OGrowErr EUnpack (sn s) (lens (attrs s)))
+        else let s' := with_n s (sn s + m) in (s', OGrowErr EUnpack (sn s') (lens (attrs s')))
+      else grow s (m + 1) (iadd_list_amount s (m + 1))          (* any object is an element of a DataContainer *)
+  | CreateSized a t k d size => do_create_sized s a t k d size
+  | Register a t k rows d => do_register s a t k rows d
   end.
 
 Fixpoint run (s : state) (h : list op) : state * list obs :=
